@@ -235,6 +235,11 @@ def check_key(ctx, curve, dom, d, named, lzhint=None):
         "pkcs8_v0_no_pub": R.pkcs8(oid, R.ec_private_key(d_bytes, None, None), version=0),
         "pkcs8_v0_with_params": R.pkcs8(oid, R.ec_private_key(d_bytes, oid, pt), version=0),
         "pkcs8_ecdh_alg": R.pkcs8(oid, R.ec_private_key(d_bytes, oid, pt), version=0, alg=R.OID_ECDH),
+        # privateKey octets shorter than the order's byte length (some encoders drop leading zero bytes; on secp160r1 the FIELD is a byte
+        # shorter than the order, so a 20-byte privateKey is what such an encoder writes for most keys)
+        "rfc5915_minimal_private_key": R.ec_private_key(d.to_bytes(max(1, (d.bit_length() + 7) // 8), "big"), oid, pt),
+        "pkcs8_minimal_private_key": R.pkcs8(oid, R.ec_private_key(d.to_bytes(max(1, (d.bit_length() + 7) // 8), "big"), None, pt), version=0),
+        "rfc5915_private_key_one_byte_short": R.ec_private_key(d_bytes[1:], oid, pt) if d_bytes[0] == 0 else R.ec_private_key(d_bytes, oid, None),
         "pkcs8_ecdh_alg_no_inner_params": R.pkcs8(oid, R.ec_private_key(d_bytes, None, pt), version=0, alg=R.OID_ECDH),
         "pkcs8_ecmqv_alg_no_inner_params": R.pkcs8(oid, R.ec_private_key(d_bytes, None, None), version=0, alg=R.OID_ECMQV),
         "pkcs8_ecmqv_alg": R.pkcs8(oid, R.ec_private_key(d_bytes, oid, pt), version=1, alg=R.OID_ECMQV),
